@@ -32,6 +32,7 @@ package data
 //@   ensures result != nil && fresh(result)
 
 //@ func NewFlowDataLocator
+//@   flag countcalls
 //@   ensures result != nil && fresh(result)
 
 //@ func NewContainer
